@@ -18,6 +18,8 @@ def show_stmts(stmts, ind=0):
             out.append(f"{pad}m.d.{st[1]} += {T.show(st[2])}.eq({G.show(st[3])})")
         elif k == "next":
             out.append(f"{pad}m.next = {st[2]!r}  # fsm {st[1]}")
+        elif k == "print" and len(st) > 4:
+            out.append(f"{pad}m.d.{st[1]} += Print({', '.join(G.show(a) for a in st[3])}, sep={st[4]['sep']!r}, end={st[4]['end']!r})")
         elif k == "print":
             out.append(f"{pad}m.d.{st[1]} += Print(Format({st[2]!r}, {', '.join(G.show(a) for a in st[3])}))")
         elif k in ("assert", "assume"):
@@ -80,6 +82,8 @@ def _build_stmts(m, stmts, sigs):
             m.d[st[1]] += T.build(st[2], sigs).eq(G.build(st[3], sigs))
         elif k == "next":
             m.next = st[2]
+        elif k == "print" and len(st) > 4:
+            m.d[st[1]] += Print(*[G.build(a, sigs) for a in st[3]], sep=st[4]["sep"], end=st[4]["end"])
         elif k == "print":
             m.d[st[1]] += Print(_fmt(st[2], st[3], sigs))
         elif k in ("assert", "assume"):
@@ -300,7 +304,13 @@ class Programs:
         r = self.r
         name = "fsm"
         states = [f"S{i}" for i in range(r.randint(2, 4))]
-        init = r.choice([None, None, r.choice(states)])
+        c = r.random()
+        if c < 0.2:
+            states = list(range(len(states)))      # any hashable names a state; 0 and "" are falsy
+            r.shuffle(states)
+        elif c < 0.35:
+            states[r.randrange(len(states))] = ""
+        init = r.choice([None, None, r.choice(states), states[-1]])
         self.fsms[name] = {"domain": "sync", "states": states, "init": init}
         body = []
         for s in states:
